@@ -87,7 +87,7 @@ def signature(case, ck, log, fault):
 
 
 def plan(tier, seed):
-    shards = F.std_plan(tier, seed, 640, 20000)
+    shards = F.std_plan(tier, seed, 2560, 30000)
     n = 8 if tier == "quick" else 32
     for i in range(n):
         shards.append({"sweep": True, "seed": seed * 977 + i, "machines": 3 if tier == "quick" else 16})
